@@ -696,6 +696,9 @@ func (c *FnCtx) callFunc(st *State, call *ast.CallExpr, fn *types.Func, recv *Va
 				if _, isIface := sig.Params().At(pi).Type().Underlying().(*types.Interface); isIface && a.S != SInt && a.S != SNone {
 					a = c.box(a)
 				}
+				if !(sig.Variadic() && pi == sig.Params().Len()-1) {
+					a = c.nilTo(a, sig.Params().At(pi).Type()) // nil passed for a slice parameter is the empty sequence
+				}
 			}
 			// pointer to an abstract container: the contract talks about the container value
 			if a.S == SInt && a.Typ != nil {
@@ -723,10 +726,14 @@ func (c *FnCtx) callFunc(st *State, call *ast.CallExpr, fn *types.Func, recv *Va
 	if c.con != nil && len(c.con.AtCall) > 0 {
 		ord := c.siteOrd(call, key)
 		for i, ac := range c.con.AtCall {
-			if ac.Callee != shortKey(key) || ord == 0 || (ac.Ord != 0 && ac.Ord != ord) {
+			if (ac.Callee != shortKey(key) && ac.Callee != key) || ord == 0 || (ac.Ord != 0 && ac.Ord != ord) {
 				continue
 			}
-			base := c.specEnvAt(st, call.Pos())
+			evalPos := call.Pos()
+			if p, ok := c.deferEnd[call]; ok {
+				evalPos = p
+			}
+			base := c.specEnvAt(st, evalPos)
 			inner := base.lookup
 			env := *base
 			env.lookup = func(n string) *Val {
@@ -735,10 +742,38 @@ func (c *FnCtx) callFunc(st *State, call *ast.CallExpr, fn *types.Func, recv *Va
 						return args[k]
 					}
 				}
-				return inner(n)
+				if v := inner(n); v != nil {
+					return v
+				}
+				// a deferred call can run before a local of its function was declared (early return): the
+				// variable has no value on that path, so any value will do
+				if _, isDeferred := c.deferEnd[call]; isDeferred {
+					if sc := c.pkg.Types.Scope().Innermost(evalPos); sc != nil {
+						if _, o := sc.LookupParent(n, evalPos); o != nil {
+							if vr, ok := o.(*types.Var); ok {
+								if _, have := st.vars[vr]; !have {
+									return c.havocVal(st, vr.Type(), "undeclared")
+								}
+							}
+						}
+					}
+				}
+				return nil
 			}
 			if base.old == base {
 				env.old = &env
+			}
+			if ac.SetVar != "" {
+				gv := c.V.specs.GhostVars[ac.SetVar]
+				if gv == nil {
+					c.specErr("set-at-call: no ghost variable " + ac.SetVar)
+					continue
+				}
+				v := c.specEval(&env, ac.Cl.Expr)
+				if v != nil {
+					st.ghost[ac.SetVar] = c.coerce(v, gv.Sort).T
+				}
+				continue
 			}
 			t := c.specBool(&env, ac.Cl.Expr)
 			if ac.Assume {
@@ -961,7 +996,31 @@ func (c *FnCtx) siteOrd(call *ast.CallExpr, key string) int {
 	if c.siteOrds == nil {
 		c.siteOrds = map[*ast.CallExpr]int{}
 		cnt := map[string]int{}
+		c.deferEnd = map[*ast.CallExpr]token.Pos{}
+		var bodies []*ast.BlockStmt
+		var stack []ast.Node
 		ast.Inspect(c.fd, func(n ast.Node) bool {
+			if n == nil {
+				top := stack[len(stack)-1]
+				stack = stack[:len(stack)-1]
+				switch top.(type) {
+				case *ast.FuncDecl, *ast.FuncLit:
+					bodies = bodies[:len(bodies)-1]
+				}
+				return true
+			}
+			stack = append(stack, n)
+			switch x := n.(type) {
+			case *ast.FuncDecl:
+				bodies = append(bodies, x.Body)
+			case *ast.FuncLit:
+				bodies = append(bodies, x.Body)
+			case *ast.DeferStmt:
+				// a deferred call runs when the enclosing function ends: its call-site assertions see that scope
+				if len(bodies) > 0 && bodies[len(bodies)-1] != nil {
+					c.deferEnd[x.Call] = bodies[len(bodies)-1].Rbrace
+				}
+			}
 			if ce, ok := n.(*ast.CallExpr); ok {
 				if ci := c.calleeOf(ce); ci.fn != nil {
 					k := typesFuncKey(ci.fn)
